@@ -2014,7 +2014,9 @@ impl<'input, T: Input> Scanner<'input, T> {
                 ));
             }
 
-            if (self.mark.col as isize) < self.indent {
+            // A continuation line must be indented deeper than the innermost block collection
+            // (`- "a` LF `b"` is not), whether or not an indent was prepared for the scalar.
+            if (self.mark.col as isize) < self.indent.max(self.block_indent() + 1) {
                 return Err(ScanError::new_str(
                     start_mark,
                     "invalid indentation in quoted scalar",
